@@ -147,6 +147,7 @@ class _Normalizer:
                 self._each_function(m, self._fuse_in_function)
                 if self.stats['inlined_calls'] + self.stats.get('fused_generators', 0) == before:
                     break
+            self._each_function(m, self._builtin_forms)
             self._each_function(m, self._iteration_idioms)
             self._each_function(m, self._yield_from)
             self._each_function(m, self._generator_form)
@@ -994,6 +995,86 @@ class _Normalizer:
                 n.operand = strip(n.operand)
             elif isinstance(n, ast.comprehension):
                 n.ifs = [strip(x) for x in n.ifs]
+
+    # ------------------------------------------------------------------ 6b. one spelling for builtin idioms
+    ITER_CONSUMERS = ('max', 'min', 'sorted', 'list', 'tuple', 'set', 'frozenset', 'iter', 'enumerate', 'any', 'all', 'sum', 'len')
+
+    def _builtin_forms(self, fnode, cls, local):
+        """* ``d.keys()`` where only the keys are iterated / counted (argument of max / min / sorted / list / len .., iterable of
+          a loop or comprehension, right side of ``in``) -> ``d``: iterating a mapping iterates its keys;
+        * ``dict.fromkeys(S, v)`` -> ``{k: v for k in S}`` (v a name, attribute or constant);
+        * ``hasattr(o, 'a') and o.a`` and ``getattr(o, 'a', False)`` in a position that only asks for truth are the same test:
+          both become ``getattr(o, 'a', False)``."""
+        me = self
+        shadow = lambda nm: nm in local or nm in me.m.assigns or nm in me.m.functions or nm in me.m.classes
+
+        def keys_of(e):
+            if isinstance(e, ast.Call) and isinstance(e.func, ast.Attribute) and e.func.attr in ('keys', 'iterkeys', 'viewkeys') \
+                    and not e.args and not e.keywords:
+                return e.func.value
+            if isinstance(e, ast.Call) and ast.unparse(e.func) in ('six.iterkeys', 'six.viewkeys') and len(e.args) == 1 and not e.keywords:
+                return e.args[0]
+            return None
+
+        class T(ast.NodeTransformer):
+            def visit_FunctionDef(self_, n):
+                return n if n is not fnode else self_.generic_visit(n)
+            visit_AsyncFunctionDef = visit_FunctionDef
+
+            def visit_Call(self_, n):
+                n = self_.generic_visit(n)
+                if isinstance(n.func, ast.Name) and n.func.id in me.ITER_CONSUMERS and not shadow(n.func.id) and n.args:
+                    k = keys_of(n.args[0])
+                    if k is not None:
+                        n.args[0] = k
+                        me.stats['builtin_forms'] = me.stats.get('builtin_forms', 0) + 1
+                if ast.unparse(n.func) == 'dict.fromkeys' and not shadow('dict') and len(n.args) == 2 and not n.keywords \
+                        and _is_simple_or_const(n.args[1]):
+                    me.counter += 1
+                    v = '__k%d' % me.counter
+                    me.stats['builtin_forms'] = me.stats.get('builtin_forms', 0) + 1
+                    return ast.copy_location(ast.DictComp(
+                        key=ast.Name(id=v, ctx=ast.Load()), value=n.args[1],
+                        generators=[ast.comprehension(target=ast.Name(id=v, ctx=ast.Store()), iter=n.args[0], ifs=[], is_async=0)]), n)
+                return n
+
+            def visit_For(self_, n):
+                n = self_.generic_visit(n)
+                k = keys_of(n.iter)
+                if k is not None:
+                    n.iter = k
+                return n
+
+            def visit_comprehension(self_, n):
+                n = self_.generic_visit(n)
+                k = keys_of(n.iter)
+                if k is not None:
+                    n.iter = k
+                return n
+
+            def visit_Compare(self_, n):
+                n = self_.generic_visit(n)
+                if len(n.ops) == 1 and isinstance(n.ops[0], (ast.In, ast.NotIn)):
+                    k = keys_of(n.comparators[0])
+                    if k is not None:
+                        n.comparators[0] = k
+                return n
+
+            def visit_BoolOp(self_, n):
+                n = self_.generic_visit(n)
+                # hasattr(o, 'a') and o.a  ->  getattr(o, 'a', False)   (same truth value; the value itself when it is truthy)
+                if isinstance(n.op, ast.And) and len(n.values) == 2 and not shadow('hasattr') and not shadow('getattr'):
+                    a, b = n.values
+                    if isinstance(a, ast.Call) and isinstance(a.func, ast.Name) and a.func.id == 'hasattr' and len(a.args) == 2 \
+                            and not a.keywords and isinstance(a.args[1], ast.Constant) and isinstance(a.args[1].value, str) \
+                            and isinstance(b, ast.Attribute) and b.attr == a.args[1].value and _is_simple(a.args[0]) \
+                            and ast.unparse(b.value) == ast.unparse(a.args[0]):
+                        me.stats['builtin_forms'] = me.stats.get('builtin_forms', 0) + 1
+                        return ast.copy_location(ast.Call(func=ast.Name(id='getattr', ctx=ast.Load()),
+                                                          args=[a.args[0], a.args[1], ast.Constant(value=False)], keywords=[]), n)
+                return n
+        T().visit(fnode)
+        ast.fix_missing_locations(fnode)
 
     # ------------------------------------------------------------------ 5. keyword calls of package functions
     def _positional_calls(self, fnode, cls, local):
@@ -2348,6 +2429,15 @@ class _Normalizer:
                         fi, recv = f0, fn.value
                     elif f0.kind == 'staticmethod':
                         fi = f0
+        elif isinstance(fn, ast.Attribute) and _is_simple(fn.value) and isinstance(fn.value, ast.Attribute) \
+                and self._receiver_class(fn.value, cls, set()) is not None \
+                and self.repo.is_helper_class(self._receiver_class(fn.value, cls, set())):
+            # ``self.field.m(..)`` where the field only ever holds instances of one new class: the method of that class
+            k = self._receiver_class(fn.value, cls, set())
+            f0 = k.find_method(fn.attr)
+            if f0 is not None and f0.module is self.m and f0.kind == 'method' \
+                    and not any(fn.attr in c.methods and c is not f0.cls for c in self.repo.subclasses(f0.cls)):
+                fi, recv = f0, fn.value
         elif isinstance(fn, ast.Attribute):
             try:
                 r = self.repo.resolve_expr(fn, self.m)
